@@ -57,6 +57,9 @@ def generate(seed, tier, enlarged=False):
         # corpus (F24): the structure changes while a parallel process elsewhere has an update in flight
         {'kind': 'grow', 'at': 2, 'more': 4, 'proc_par': False, 'step_par': False, 'divide': False, 'slow_par': True},
         {'kind': 'proto', 'cmds': ['send', 'query', 'get', 'end']},
+        # corpus (F79, F86): end() with a result in flight, then the batch asks for it - with and without profiling
+        {'kind': 'proto', 'cmds': ['send', 'end', 'get']},
+        {'kind': 'proto', 'cmds': ['send', 'end', 'get'], 'profile': True},
         # corpus (F25): a compartment holding a parallel process is moved
         {'kind': 'pmove', 'at': 2, 'first': 'mover', 'total': 5},
         {'kind': 'pmove', 'at': 2, 'first': 'acc', 'total': 5},
@@ -76,7 +79,10 @@ def generate(seed, tier, enlarged=False):
                     cs.insert(rng.randrange(len(cs) + 1), 'query')
                 if rng.random() < 0.3:
                     cs.insert(rng.randrange(len(cs)), rng.choice(['send', 'get', 'end']))
-            cases.append({'kind': 'proto', 'cmds': cs})
+            case = {'kind': 'proto', 'cmds': cs}
+            if rng.random() < 0.35:
+                case['profile'] = True
+            cases.append(case)
         elif r < 6:
             nproc = rng.randint(1, 3)
             procs = [{'ts': rng.choice([0.5, 1.0, 1.0, 2.0]), 'par': rng.random() < 0.6,
@@ -131,15 +137,20 @@ def grace():
 def run_proto(c):
     from vivarium.core.process import ParallelProcess
     from harness.par_kit import Acc
-    pp = ParallelProcess(Acc({'pid': 0}))
+    stats_objs = []
+    pp = (ParallelProcess(Acc({'pid': 0}), True, stats_objs) if c.get('profile')
+          else ParallelProcess(Acc({'pid': 0})))
     pp.schema = pp.get_schema()          # as Store._generate_paths does when the process enters the hierarchy
     oks = []
+    mixed = []                           # a collected result that is not the process's update / a profile that is not one
     for cmd in c['cmds']:
         try:
             if cmd == 'send':
                 pp.send_command('next_update', (1.0, {'shared': {'count': 0}, 'own': {'elapsed': 0.0}}))
             elif cmd == 'get':
-                pp.get_command_result()
+                got = pp.get_command_result()
+                if not (isinstance(got, dict) and set(got) <= {'shared', 'own'}):
+                    mixed.append('get_command_result returned %s instead of the update' % (str(got)[:80],))
             elif cmd == 'query':
                 # what the engine reads while the structure changes: the schema (view rebuild) and is_step()
                 assert pp.schema is not None
@@ -159,7 +170,10 @@ def run_proto(c):
         pp.end()
     except Exception:
         pass
-    return {'oks': oks, 'alive': alive, 'left': grace()}
+    for st in stats_objs:
+        if not (isinstance(st.stats, dict) and all(isinstance(k, tuple) and len(k) == 3 for k in st.stats)):
+            mixed.append('the profile collected at end() is %s' % (str(st.stats)[:80],))
+    return {'oks': oks, 'alive': alive, 'left': grace(), 'mixed': mixed}
 
 
 def build_twin(c, parallel):
@@ -391,6 +405,12 @@ def run_impl(c):
 
 def oracle(c, ob, rng):
     msgs = []
+    if c['kind'] == 'proto':
+        for m in ob.get('mixed', [])[:1]:
+            msgs.append((m + ' (profile=%r)' % bool(c.get('profile')), 'result-mixed-up'))
+        if ob['left']:
+            msgs.append(('a worker survived end()', 'worker-leaked'))
+        return msgs
     if c['kind'] == 'twin':
         s, p = ob['serial'], ob['parallel']
         if p['problems'] and p['problems'][0].startswith('EndHang'):
